@@ -43,7 +43,7 @@ var props = []*core.Property{
 	prop("C05", "other", "x", nil, ruleReader, ruleErrorReturns, ruleLimitSlice),
 	prop("C14", "other", "x", nil, ruleExtend, ruleLookup, ruleWalkDiscipline, ruleFreshResults),
 	prop("C15", "other", "x", nil, ruleAliases, ruleNames, ruleEquality, ruleLookup),
-	prop("C07", "other", "x", nil, ruleTextNode, ruleTextPredicate, ruleTextShape, ruleBOMTable),
+	prop("C07", "other", "x", nil, ruleTextNode, ruleTextPredicate, ruleTextShape, ruleBOMTable, ruleWalkDiscipline, ruleLimitSlice, ruleReader),
 	prop("C11", "other", "x", nil, ruleBOMTable, rulePlainReturns, ruleASCIIClass, ruleTrim, ruleLatin),
 	prop("C10", "other", "x", nil, ruleJSONNodes, ruleStackBalance, ruleQueryTables, ruleTokenGate),
 	prop("C08", "other", "x", nil, ruleTruncTable, ruleFailProp, ruleCap, ruleJSONNodes, ruleTokenGate),
@@ -51,5 +51,7 @@ var props = []*core.Property{
 	prop("C13", "other", "x", nil, ruleInspectedGuard),
 	prop("C12", "other", "x", nil, ruleSnifferMap, ruleDecoderTypestate, ruleLowerCase, ruleHTMLOrder),
 	prop("C06", "other", "x", nil, ruleAtomics, ruleLockset, ruleWriteOnce, ruleSharedAppend, rulePkgState, ruleSnapshot, ruleFreshResults),
+	prop("C18", "other", "x", nil, ruleTar),
+	prop("C19", "other", "x", nil, ruleZipMarkers, ruleZipSignatures, ruleZipWalk),
 	prop("C16", "other", "x", nil, ruleCap),
 }
